@@ -106,13 +106,33 @@ EXT={
  "C09":" Pool documents also in reversed and rotated declaration order.",
  "C16":" Every write to a struct field reached through a pointer and every read of a field some statement writes is reported to the happens-before monitor (monitor-only hooks), so a read-only method that caches into its receiver is found in the first schedule; H4 meets the catalog's first serialisation under concurrency.",
 }
+EXT2={
+ "C01":" File-system answers of the library's own os calls explored through a shim (every single departure; thorough: pairs) over seven include structures; the post-scan single faults of C11 / C02 as a crash-only stream, each top-level declaration also alone in a small file of its own.",
+ "C02":" Every assignment of a line-end convention to each file of the include structures.",
+ "C03":" All sequences of three runs over 4 projects x 6 option lists with the option values shared between the runs against freshly made ones; every stream document compiled twice from ONE file object (same result, input bytes intact).",
+ "C04":" Query: example {absent, present} x format {absent, htmlFormEncoded, noFormat}; two responses with one code; macro-factored renderings of the pool documents (every sub-tree written once as a macro body and pasted where it stood; every child of a URL block pasted into the block and into its twin on another path): accepted, byte-identical catalog.",
+ "C06":" The forest the library builds after macro expansion is compared on every accepted transition; pass 2 expands every state again from a history-rich representative (through its deepest predecessors), pass 3 appends ')' and then every token to the history-rich representative of every state with an open parenthesis.",
+ "C07":" Macros without parentheses (standing last), every host body as a never-pasted macro, 40 fixtures of the corpus inlined textually; thorough: paste graphs over 5 macros with <= 6 edges.",
+ "C08":" Every run of top-level declarations of every recoverable fixture moved into an included file; file-system answers explored through the shim (an unusable target is rejected, an empty answer equals an empty file, every path touched lies inside the project directory - from the call log).",
+ "C10":" All permutations (<= 5 / 6 declarations; all transpositions beyond) of the top-level declarations of every recoverable fixture.",
+ "C11":" The second singleton also as a different valid instance at a non-adjacent place; every parameter of every path renamed; the duplicate URL also bare; the same injections in the reversed declaration order.",
+ "C13":" Parameter schemas {integer / string literal, reference to an integer / string type, float with a type rule}.",
+ "C15":" Lines of blanks only, judged by the oracles that need no normal form.",
+ "C16":" The pinned schema library's own synchronisation (RWMutexes, Once, sync.Pools as deterministic LIFO free lists with the Put -> Get edge) runs under the same scheduler; H3 also with two documents that walk through most of the library.",
+ "C17":" Every value read twice from one file object (second read equal, input bytes intact).",
+ "C18":" With INCLUDE banned the file-system call log of the library is empty (shim).",
+ "C19":" Undeclared names that are automatic tags of other interactions; methods on the URL's own path outside the block.",
+ "C20":" Fresh methods sharing parameter names with existing paths or using an existing type through Path; every fresh declaration at every declaration boundary of every recoverable fixture, deletion of every unreferenced named declaration there.",
+}
 for k,v in EXT.items():
+    CHECKS[k]["text"]+=v
+for k,v in EXT2.items():
     CHECKS[k]["text"]+=v
 ENGINES=[
  {"name":"E-SCAN","path":"internal/escan","serves_properties":["C14"],"kind_free_text":"explicit-state BFS over the real scanner.Next with a per-byte hook; abstract key cross-checked by second representatives"},
  {"name":"E-STREAMS","path":"internal/checks/streams.go","serves_properties":[],"kind_free_text":"deterministic enumerations of projects shared (as code) by the aggregating checks: scanner-state and context-state representatives (prepared once by the parent), directive-variant sequences, paste graphs, include graphs and file-system states, corpus one-line-edit neighbourhood, option sets, stress names"},
  {"name":"E-SCHED","path":"cmd/vinstr (sched mode) + shim/vsync + internal/checks/c16.go","serves_properties":[],"kind_free_text":"cooperative scheduler shim replacing sync in the library (overlay), access hooks inserted by the typed instrumenter, preemption-bounded DFS, vector-clock race monitor, linearizability oracle, free-running -race pass"},
- {"name":"E-ENV","path":"cmd/vinstr + shim/vdet + internal/checks/c03.go","serves_properties":[],"kind_free_text":"typed source instrumenter writing a go build -overlay (map ranges -> explorer-chosen order) and a DFS over choice vectors with replay validation"},
+ {"name":"E-ENV","path":"cmd/vinstr + shim/vdet + shim/vio + internal/checks/c03.go + internal/checks/iofaults.go","serves_properties":[],"kind_free_text":"typed source instrumenter writing a go build -overlay (map ranges -> explorer-chosen order) and a DFS over choice vectors with replay validation"},
  {"name":"E-CTX","path":"internal/checks/c06.go","serves_properties":[],"kind_free_text":"explicit-state BFS over the reference context resolver; every transition replayed through the real scanner + scanProject and paste expansion via verif-tagged dumps"},
  {"name":"E-STR","path":"internal/checks (c13 c15 c17 c19)","serves_properties":[],"kind_free_text":"all strings / texts up to a length bound over a stress alphabet, through hooked functions and end to end, against reference rules written from the property statements"},
  {"name":"E-DOC","path":"internal/doc + internal/checks","serves_properties":["C05"],"kind_free_text":"bounded-exhaustive document enumeration (block pool, renderer with spans) with metamorphic partners, sharded over crash-isolated worker processes (internal/fw)"},
